@@ -9,6 +9,7 @@ Inductive c12_case :=
    grace period whose stack contains Tokenizer.run *)
 | CTok (id : N) (d : c15_cfg) (input : list (list N * N)) (received total calls leaked : N)
 (* a pipeline evaluated `calls` times.
+   nw = workers of all map/accept stages of the pipeline plus one waiter per further stage (bound per evaluation: nw+1).
    kind 0: no goroutine-starting stage took part (map/accept stayed sequential);
         1: a parallel map/accept stage (iterator.initParallel, nw workers) took part;
         2: merge (two iterator.ToChan producers behind the repaired wrapper); 3: multiUse;
